@@ -1452,4 +1452,97 @@ theorem encKVToy_inj : KVInj encKVToy := by
   obtain ⟨e4, e⟩ := unary_inj _ _ _ _ e
   exact List.append_inj e e4
 
+section
+variable (H : Bytes → Bytes) (enc : Int → Int → Int → Bytes → Bytes → Bytes) (encKV : Bytes → Bytes → Bytes)
+
+/-- what an accepted two-operator proof (IAVL op, then multistore op) went through -/
+theorem verify_two_ops (fx : Fixes) (op1 : Op) (name : Bytes) (infos : List StoreInfo) (root key : Bytes)
+    (args : List Bytes) (hk : op1.key = key) (hk0 : key ≠ []) (hn0 : name ≠ [])
+    (h : verify H enc encKV fx [op1, .multi name infos] root [name, key] args = some true) :
+    ∃ r1, Op.run H enc encKV fx op1 args = .ok r1 ∧ multiStoreRun H encKV fx infos name r1 = .ok [root] := by
+  subst hk
+  have km : (Op.multi name infos).key = name := rfl
+  simp only [verify, verifyOps, km, ne_eq, hk0, hn0, not_false_eq_true, if_true, List.reverse_cons,
+    List.reverse_nil, List.nil_append, List.cons_append, not_true_eq_false, if_false] at h
+  cases h1 : Op.run H enc encKV fx op1 args with
+  | error e => rw [h1] at h; simp at h
+  | ok r1 =>
+    rw [h1] at h
+    simp only [List.reverse_cons, List.reverse_nil, List.nil_append, not_true_eq_false, if_false, Op.run] at h
+    refine ⟨r1, rfl, ?_⟩
+    cases h2 : multiStoreRun H encKV fx infos name r1 with
+    | error e => rw [h2] at h; simp at h
+    | ok r2 =>
+      rw [h2] at h
+      simp only [List.reverse_nil] at h
+      cases r2 with
+      | nil => simp at h
+      | cons a rest =>
+        simp only [Option.some.injEq, Bool.and_eq_true, decide_eq_true_eq] at h
+        -- the multistore op returns exactly one root
+        have : rest = [] := by
+          simp only [multiStoreRun] at h2
+          split at h2
+          · split at h2
+            · simp at h2
+            · split at h2
+              · split at h2
+                · injection h2 with h2; simp at h2; exact h2.2
+                · simp at h2
+              · simp at h2
+          · simp at h2
+        rw [this, h.1]
+
+/-- **End to end (strict verifier, duplicate names rejected)**: a value proof accepted by
+`ProofRuntime.VerifyValue` against the app hash of a commit whose store `name` has the tree `t` states
+a pair stored in `t` — or a hash collision. -/
+theorem verify_value_sound' (hinj : EncInj enc) (hne : HNonEmpty H) (hlen : HLen H) (hkv : KVInj encKV)
+    (fx : Fixes) (hs : fx.strictNodes = true) (hd : fx.dupNames = true)
+    (p : Option RangeProof) (infos real : List StoreInfo) (name key value : Bytes) (hk0 : key ≠ []) (hn0 : name ≠ [])
+    (t : Tree) (hw : WF t) (hreal : ∀ si ∈ real, si.name = name → si.hash = Tree.hash H enc t)
+    (h : verify H enc encKV fx [.value key p, .multi name infos] (commitHash H encKV real) [name, key] [value] = some true) :
+    (∃ ver, (key, value, ver) ∈ t.leaves) ∨ Collision H := by
+  obtain ⟨r1, h1, h2⟩ := verify_two_ops H enc encKV fx (.value key p) name infos _ key [value] rfl hk0 hn0 h
+  simp only [Op.run] at h1
+  cases p with
+  | none => simp [valueOpRun] at h1
+  | some p =>
+    -- the value op returns one root
+    have hr : ∃ root, r1 = [root] := by
+      simp only [valueOpRun] at h1
+      split at h1
+      · simp at h1
+      · split at h1
+        · injection h1 with h1; exact ⟨_, h1.symm⟩
+        · simp at h1
+    obtain ⟨root, rfl⟩ := hr
+    rcases multistore_sound' H encKV hne hlen hkv fx infos real name root (Or.inl hd) h2 with ⟨si, hsi, e1, e2⟩ | c
+    · have : root = Tree.hash H enc t := by rw [← e2]; exact hreal si hsi e1
+      subst this
+      exact value_sound' H enc hinj hne fx hs p t hw key value h1
+    · exact Or.inr c
+
+/-- the same for absence proofs -/
+theorem verify_absence_sound' (hinj : EncInj enc) (hne : HNonEmpty H) (hlen : HLen H) (hkv : KVInj encKV)
+    (fx : Fixes) (hs : fx.strictNodes = true) (hd : fx.dupNames = true)
+    (p : RangeProof) (infos real : List StoreInfo) (name key : Bytes) (hk0 : key ≠ []) (hn0 : name ≠ [])
+    (t : Tree) (hw : WF t) (hreal : ∀ si ∈ real, si.name = name → si.hash = Tree.hash H enc t)
+    (h : verify H enc encKV fx [.absence key (some p), .multi name infos] (commitHash H encKV real) [name, key] [] = some true) :
+    (∀ e ∈ t.leaves, e.1 ≠ key) ∨ Collision H := by
+  obtain ⟨r1, h1, h2⟩ := verify_two_ops H enc encKV fx (.absence key (some p)) name infos _ key [] rfl hk0 hn0 h
+  simp only [Op.run] at h1
+  have hr : ∃ root, r1 = [root] := by
+    simp only [absenceOpRun] at h1
+    split at h1
+    · simp at h1
+    · split at h1
+      · injection h1 with h1; exact ⟨_, h1.symm⟩
+      · simp at h1
+  obtain ⟨root, rfl⟩ := hr
+  rcases multistore_sound' H encKV hne hlen hkv fx infos real name root (Or.inl hd) h2 with ⟨si, hsi, e1, e2⟩ | c
+  · have : root = Tree.hash H enc t := by rw [← e2]; exact hreal si hsi e1
+    subst this
+    exact absence_sound' H enc hinj hne fx hs p t hw key h1
+  · exact Or.inr c
+end
 end IavlProof
